@@ -52,7 +52,8 @@ MustIgnore(st, p) ==
           \/ IsExtLine(ln) /\ IsSuffixB(StripStar(ln), LastCompB(Bytes(p))) /\ Len(LastCompB(Bytes(p))) > Len(ln) - 1
 MustNotIgnore(st, p) ==
     \/ ~st.ign.present
-    \/ \A ln \in IgnLines(st) : LET lit == StripStar(StripSlash(ln)) IN Len(lit) > 0 /\ ~ContainsB(Bytes(p), lit)
+    \/ \A ln \in IgnLines(st) : LET lit == StripStar(ln) IN Len(lit) > 0 /\ ~ContainsB(Bytes(p), lit)
+       \* (p is a file: a `name/` line can only match a path that contains "name/", slash included - a regular file called `name` is not hidden by it)
 
 ----------------------------------------------------------------------------
 (* connectivity (C03) over what is reachable from the branches and the staging area *)
